@@ -106,7 +106,7 @@ func (s *scanner) ScanToken() (Object, error) {
 			return Operator(">>"), nil
 		default:
 			err := s.err
-			if err == nil {
+			if err == nil || err == io.EOF {
 				err = &postScriptError{eSyntaxerror, "unexpected '>'"}
 			}
 			return nil, err
